@@ -331,13 +331,13 @@ def _load_yaml_or_json(data: bytes, content_type: Optional[str]) -> Union[dict[s
     if content_type == "application/json":
         try:
             return json.loads(data.decode())
-        except ValueError as err:
+        except (ValueError, RecursionError) as err:
             return GeneratorError(header=f"Invalid JSON from provided source: {err}")
     else:
         try:
             yaml = YAML(typ="safe")
             return yaml.load(data)
-        except (YAMLError, TypeError) as err:  # TypeError: a mapping or sequence used as a mapping key is unhashable
+        except (YAMLError, TypeError, RecursionError) as err:  # TypeError: a mapping or sequence used as a mapping key is unhashable
             return GeneratorError(header=f"Invalid YAML from provided source: {err}")
 
 
